@@ -123,6 +123,7 @@ type Stack struct {
 	Voter   *consensus.Voter
 	Synch   *synchronizer.Synchronizer
 	CIO     *server.ClientIO
+	Srv     *server.Server
 	Rules   consensus.Ruleset
 	base    crypto.Base
 	// monitors
@@ -329,6 +330,7 @@ func (cl *Cluster) wire(st *Stack) error {
 		}
 	}, eventloop.Prioritize())
 	st.CIO = server.NewClientIO(st.EL, lg, st.Cache)
+	st.Srv = server.NewServer(st.EL, lg, st.Cfg, st.BC)
 	// part 2 (registered after ClientIO's own handler, so it runs after it): which commands of the batch were applied?
 	eventloop.Register(st.EL, func(e clientpb.ExecuteEvent) { st.recoverApplied(e.Batch) })
 	eventloop.Register(st.EL, func(c hotstuff.CommitEvent) { st.Commits = append(st.Commits, c.Block) })
